@@ -47,6 +47,31 @@ Definition granted_bare (fs : fsys) (f : fpath) (i : import) : list ident :=
       end
   end.
 
+(* what compile_module makes of it for an import written inside a non-entry module: of the
+   selected symbols only the first (known finding KF-C19-6); equal to granted_bare when every
+   `needs .. from ..` selects one symbol.  (The parser never produces an empty symbol list.) *)
+Definition granted_bare_nested (fs : fsys) (f : fpath) (i : import) : list ident :=
+  match target fs f i with
+  | None => []
+  | Some g =>
+      match find_file fs g with
+      | None => []
+      | Some mg =>
+          match i_form i with
+          | FModule | FWildcard => pub_names mg
+          | FSymbols l => [hd 0 l]
+          | FAlias _ => []
+          end
+      end
+  end.
+
+Definition single_symbols (m : module) : Prop :=
+  forall j l, In j (m_imports m) -> i_form j = FSymbols l -> exists x, l = [x].
+Definition nonempty_symbols (m : module) : Prop :=
+  forall j l, In j (m_imports m) -> i_form j = FSymbols l -> l <> [].
+Definition no_std_imports (m : module) : Prop :=
+  forall j, In j (m_imports m) -> is_std (i_path j) = false.
+
 (* the qualifier under which the import's module can be named.  (The loader also treats the last
    segment of a wildcard import as a qualifier; nothing is ever bound under it by that import.) *)
 Definition granted_qualifier (i : import) : option ident :=
@@ -92,3 +117,120 @@ Fixpoint count_id (n : ident) (l : list ident) : nat :=
 Definition all_def_names (fs : fsys) : list ident := flat_map (fun fm => map d_name (m_defs (snd fm))) fs.
 Definition unique_defs (fs : fsys) : bool :=
   forallb (fun n => Nat.eqb (count_id n (all_def_names fs)) 1) (all_def_names fs).
+
+(* every import written in a reachable file resolves, and selects only pub symbols *)
+Definition clean (fs : fsys) (E : fpath) : Prop :=
+  forall f m i, reachable fs E f -> find_file fs f = Some m -> In i (m_imports m) ->
+    is_std (i_path i) = false ->
+    i_path i <> [] /\ exists g mg, target fs f i = Some g /\ find_file fs g = Some mg /\
+      (forall l s, i_form i = FSymbols l -> In s l -> In s (pub_names mg)).
+
+(* decidable and sufficient: the same for every file of the tree, reachable or not *)
+Definition clean_b (fs : fsys) : bool :=
+  forallb (fun fm => forallb (fun i =>
+     is_std (i_path i) ||
+     (match i_path i with [] => false | _ :: _ => true end &&
+      match target fs (fst fm) i with
+      | Some g =>
+          match find_file fs g with
+          | Some mg => match i_form i with
+                       | FSymbols l => forallb (fun s => mem_id s (pub_names mg)) l
+                       | _ => true
+                       end
+          | None => false
+          end
+      | None => false
+      end)) (m_imports (snd fm))) fs.
+
+(* ---- compile-time name sets of a top level, against the grants above *)
+(* a non-entry module (its event has the non-empty key it was registered under) *)
+Definition ev_ok_mod (fs : fsys) (ev : event) : Prop :=
+  ev_key ev <> [] /\
+  forall m, find_file fs (ev_file ev) = Some m -> no_std_imports m ->
+    (forall q, In q (ev_aliases ev) <-> exists j, In j (m_imports m) /\ granted_qualifier j = Some q) /\
+    (forall n, In n (ev_known ev) <->
+       In n (map d_name (m_defs m)) \/ exists j, In j (m_imports m) /\ In n (granted_bare_nested fs (ev_file ev) j)).
+
+(* the entry file *)
+Definition entry_names_ok (fs : fsys) (E : fpath) (me : module) (ev : event) : Prop :=
+  (forall q, In q (ev_aliases ev) <-> exists j, In j (m_imports me) /\ granted_qualifier j = Some q) /\
+  (forall n, In n (ev_known ev) <->
+     In n (map d_name (m_defs me)) \/ exists j, In j (m_imports me) /\ In n (granted_bare fs E j)).
+
+(* ---- concrete trees used by the refutation theorems and examples of Props/C19.v *)
+Definition imp (p : key) (f : form) : import := {| i_path := p; i_form := f |}.
+Definition D (n : ident) (b : bool) : def := {| d_name := n; d_pub := b |}.
+Definition M (is : list import) (ds : list def) : module := {| m_imports := is; m_defs := ds |}.
+Definition E9 : fpath := [9].
+
+
+(* two directories (20, 21), each with its own file 12, each imported as `needs n12` from its own directory *)
+Definition w_collision : fsys :=
+  [ ([9], M [imp [20;10] (FAlias 70); imp [21;11] (FAlias 71)] []);
+    ([20;10], M [imp [12] FModule] [D 30 true]);
+    ([21;11], M [imp [12] FModule] [D 34 true]);
+    ([20;12], M [] [D 40 true; D 41 true]);
+    ([21;12], M [] [D 40 true; D 42 true]) ].
+
+(* a/x imported as a.x by the entry and as x by a/y *)
+Definition w_twokeys : fsys :=
+  [ ([9], M [imp [20;10] (FAlias 70); imp [20;11] (FAlias 71)] []);
+    ([20;10], M [] [D 30 true]);
+    ([20;11], M [imp [10] FModule] [D 34 true]) ].
+
+(* one directory; 10 has pub 40, 11 a PRIVATE 40; 12 imports 10 (alias 73) after 11 ran *)
+Definition w_flatns : fsys :=
+  [ ([9], M [imp [10] (FAlias 70); imp [11] (FAlias 71); imp [12] (FAlias 72)] []);
+    ([10], M [] [D 40 true]);
+    ([11], M [] [D 40 false; D 45 true]);
+    ([12], M [imp [10] (FAlias 73)] [D 46 true]) ].
+
+(* 10 `needs n11.n44`, 11 `needs n10.n40` *)
+Definition w_pscycle : fsys :=
+  [ ([9], M [imp [10] FModule] []);
+    ([10], M [imp [11;44] FModule] [D 40 true]);
+    ([11], M [imp [10;40] FModule] [D 44 true]) ].
+
+(* `needs n10` then `needs n10.n42`, 42 private *)
+Definition w_leak : fsys :=
+  [ ([9], M [imp [10] FModule; imp [10;42] FModule] []);
+    ([10], M [] [D 40 true; D 42 false]) ].
+
+(* `needs n40, n42 from n10` in the entry and in module 11 *)
+Definition w_second : fsys :=
+  [ ([9], M [imp [11] FModule; imp [10] (FSymbols [40;42])] []);
+    ([11], M [imp [10] (FSymbols [40;42])] [D 46 true]);
+    ([10], M [] [D 40 true; D 42 true]) ].
+
+(* `needs n40 from n10`: n10.n40 and n99.n40 work *)
+Definition w_qual : fsys :=
+  [ ([9], M [imp [10] (FSymbols [40])] []);
+    ([10], M [] [D 40 true]) ].
+
+(* 13 imports 11 as 70, 12 imports 10 as 70 *)
+Definition w_shared_q : fsys :=
+  [ ([9], M [imp [13] FModule; imp [12] FModule] []);
+    ([13], M [imp [11] (FAlias 70)] [D 50 true]);
+    ([12], M [imp [10] (FAlias 70)] [D 46 true]);
+    ([10], M [] [D 40 true]);
+    ([11], M [] [D 44 true]) ].
+
+(* non-vacuity: a flat diamond with all import forms initialises in post-order; a 6-cycle behind a
+   tail is reported, with the minimal fuel bound *)
+Definition w_diamond : fsys :=
+  [ ([9], M [imp [10] FModule; imp [11] (FAlias 71); imp [12] (FSymbols [38]); imp [1;0] (FAlias 77)] [D 60 true]);
+    ([10], M [imp [19] (FAlias 75)] [D 30 true; D 31 false]);
+    ([11], M [imp [19] (FSymbols [66])] [D 34 true]);
+    ([12], M [imp [19] FWildcard; imp [10] FModule] [D 38 true]);
+    ([19], M [] [D 66 true; D 67 false]) ].
+
+Definition w_cycle6 : fsys :=
+  [ ([9], M [imp [10] FModule] []);
+    ([10], M [imp [11] (FAlias 70)] [D 30 true]);
+    ([11], M [imp [12] FModule] [D 34 true]);
+    ([12], M [imp [13] (FSymbols [42])] [D 38 true]);
+    ([13], M [imp [14] FWildcard] [D 42 true]);
+    ([14], M [imp [15] FModule] [D 46 true]);
+    ([15], M [imp [16] FModule] [D 50 true]);
+    ([16], M [imp [19] FModule; imp [11] (FAlias 71)] [D 54 true]);
+    ([19], M [] [D 66 true]) ].
